@@ -7,7 +7,7 @@ from harness.common.watchdog import time_limit, Timeout
 
 ID = "C12"
 MANIFEST = {
-    "text": "Lean 4 theorems (Props/C12.lean) over an exact model of ppm.PPM_ENCODER/PPM_DECODER/HDD/SDD and utils.dec2bin, "
+    "text": "Lean 4 theorems (Props/C12.lean; incl. encode_append / decode_append: both maps are homomorphisms at symbol boundaries) over an exact model of ppm.PPM_ENCODER/PPM_DECODER/HDD/SDD and utils.dec2bin, "
             "unbounded (every order, every length, every bit list, every pick oracle obeying numpy's contract, every linearly "
             "ordered sample type): one-hot block at the big-endian value per k-bit row; decoder(encoder(b)) = b truncated to whole "
             "symbols; encoder(decoder(c)) = c on valid codewords (bijection); HDD output is a valid codeword, leaves one-ON "
@@ -547,6 +547,19 @@ def run_impl(case):
                     eo = PPM_ENCODER(_mk_input(case["data"]), M)
                 res["dec"] = _guard(PPM_DECODER, eo, M)
                 res["dec_kw"] = _twin(PPM_DECODER, "PPM_DECODER", eo, M)
+                # homomorphism at a symbol boundary (theorems encode_append / decode_append): the frame split after half of its
+                # whole symbols, each part encoded / decoded on its own, must give the parts of the whole result
+                bits = _bits_of(case["data"])
+                if bits is not None and is_pow2(M) and 2 <= M <= 256 and not case.get("offspec", False):
+                    k = M.bit_length() - 1
+                    cut = (len(bits) // k // 2) * k
+                    if 0 < cut < len(bits):
+                        e1 = _guard(PPM_ENCODER, [int(c) for c in bits[:cut]], M)
+                        e2 = _guard(PPM_ENCODER, [int(c) for c in bits[cut:]], M)
+                        res["pieces"] = {"cut": cut, "e1": e1, "e2": e2}
+                        if e1["status"] == "ok" and e2["status"] == "ok" and len(e2["bits"]) > 0:
+                            res["pieces"]["d1"] = _guard(PPM_DECODER, [int(c) for c in e1["bits"]], M)
+                            res["pieces"]["d2"] = _guard(PPM_DECODER, [int(c) for c in e2["bits"]], M)
             return res
         if kind == "dec":
             from opticomlib.ppm import PPM_DECODER
@@ -825,6 +838,23 @@ def _oracle_statement(case, res):
             _valid_type(dec, "PPM_DECODER", v)
             if dec["bits"] != bits[:n * k]:
                 v.append(("C12:dec-enc", f"PPM_DECODER(PPM_ENCODER({bits!r},{M}),{M}) = {dec['bits'][:80]!r}, required {bits[:n*k][:80]!r}"))
+        pc = res.get("pieces")
+        if pc:
+            e1, e2 = pc["e1"], pc["e2"]
+            if e1["status"] != "ok" or e2["status"] != "ok":
+                v.append(("C12:enc-append", f"PPM_ENCODER of the parts {bits[:pc['cut']][:40]!r} / {bits[pc['cut']:][:40]!r} (M={M}) failed: "
+                                            f"{e1 if e1['status'] != 'ok' else e2}"))
+            else:
+                if e1["bits"] + e2["bits"] != enc["bits"]:
+                    v.append(("C12:enc-append", f"PPM_ENCODER({bits[:60]!r}, {M}) differs from the concatenation of the encodings of its "
+                                                f"parts split after {pc['cut']} bits (a symbol boundary)"))
+                d1, d2 = pc.get("d1"), pc.get("d2")
+                if d1 is not None and dec is not None and dec["status"] == "ok":
+                    if d1["status"] != "ok" or d2["status"] != "ok":
+                        v.append(("C12:dec-append", f"PPM_DECODER of the encoded parts (M={M}) failed: {d1 if d1['status'] != 'ok' else d2}"))
+                    elif d1["bits"] + d2["bits"] != dec["bits"]:
+                        v.append(("C12:dec-append", f"PPM_DECODER of the whole codeword of {bits[:60]!r} (M={M}) differs from the "
+                                                    f"concatenation of the decodings of its two parts"))
         return v
     if kind == "dec":
         bits = _bits_of(case["data"])
